@@ -14,3 +14,21 @@ def prove(formula, timeout_ms=20000):
     if r == z3.sat:
         return "refuted", str(s.model())
     return "unknown", None
+
+
+def poly_to_z3(f, names):
+    """polynomial term over variable atoms only -> z3 real expression (None if other atom kinds occur)"""
+    from . import term as S
+    tot = z3.RealVal(0)
+    for m, c in f.p.items():
+        t = z3.RealVal(str(c))
+        for a, e in m:
+            if S.A.kind[a] != 'var' or e < 0:
+                return None
+            nm = S.A.names[a]
+            if nm not in names:
+                names[nm] = z3.Real(nm)
+            for _ in range(e):
+                t = t * names[nm]
+        tot = tot + t
+    return tot
